@@ -20,6 +20,26 @@ pub fn budget(tier: &str, quick: usize, thorough: usize) -> Budget {
     }
 }
 
+/// bounded-exhaustive sweep E1 (all mappings of <= 5 lines over the 12-line alphabet x fixed query universe):
+/// every block, or a seeded sample of `sample` blocks.  Placed last: no mapping-dependent operation follows.
+fn e1_blocks(out: &mut Vec<String>, r: &mut Rng, sample: Option<usize>) {
+    let total = crate::run::sweep_total(crate::run::ALPHA1.len() as u64, crate::run::E1_MAXLEN);
+    let blocks = (total + crate::run::E1_BLOCK - 1) / crate::run::E1_BLOCK;
+    match sample {
+        None => {
+            for b in 0..blocks {
+                out.push(format!("E1 {}", b));
+            }
+        }
+        Some(k) => {
+            out.push("E1 0".into());
+            for _ in 0..k {
+                out.push(format!("E1 {}", r.below(blocks as usize)));
+            }
+        }
+    }
+}
+
 fn push_mapping(out: &mut Vec<String>, m: &[u8]) {
     out.push(format!("M {}", hex(m)));
     // the domain predicate of the cache theorems (dom32 && sizes_ok) is evaluated by the model for
@@ -61,6 +81,7 @@ pub fn cases(prop: &str, seed: u64, tier: &str) -> Vec<String> {
                 }
             }
             corpus_queries(&mut out, &mut r, QuerySel { class: false, method: false, lines: true, params: false, all_lines: false, both_files: false }, b.thorough);
+            e1_blocks(&mut out, &mut r, None);
         }
         "C02" => {
             big_cases(&mut out, &mut r, QuerySel { class: true, method: true, lines: true, params: true, all_lines: false, both_files: false }, if tier == "quick" { 1 } else { 12 }, true);
@@ -83,6 +104,7 @@ pub fn cases(prop: &str, seed: u64, tier: &str) -> Vec<String> {
                 emit_text_queries(&mut out, m.as_bytes(), &mut r, 2, 2, 3);
             }
             corpus_queries(&mut out, &mut r, QuerySel { class: true, method: true, lines: true, params: true, all_lines: false, both_files: false }, b.thorough);
+            e1_blocks(&mut out, &mut r, None);
         }
         "C03" => {
             big_cases(&mut out, &mut r, QuerySel { class: false, method: false, lines: false, params: true, all_lines: false, both_files: false }, if tier == "quick" { 2 } else { 12 }, false);
@@ -97,6 +119,7 @@ pub fn cases(prop: &str, seed: u64, tier: &str) -> Vec<String> {
                 emit_queries(&mut out, m.as_bytes(), &mut r, q);
             }
             corpus_queries(&mut out, &mut r, QuerySel { class: false, method: false, lines: false, params: true, all_lines: false, both_files: false }, b.thorough);
+            e1_blocks(&mut out, &mut r, if tier == "quick" { Some(100) } else { None });
         }
         "C04" => {
             std_cases(&mut out, &mut r, &["HC", "HB"], if tier == "quick" { 300 } else { 8000 });
@@ -118,6 +141,7 @@ pub fn cases(prop: &str, seed: u64, tier: &str) -> Vec<String> {
                 }
             }
             corpus_queries(&mut out, &mut r, QuerySel { class: true, method: true, lines: false, params: false, all_lines: false, both_files: false }, b.thorough);
+            e1_blocks(&mut out, &mut r, if tier == "quick" { Some(100) } else { None });
         }
         "C06" | "C13P" => {
             std_cases(&mut out, &mut r, &["HU", "HN", "HP", "HT"], if tier == "quick" { 150 } else { 5000 });
